@@ -31,9 +31,9 @@ def showBinding : Option Binding → String
 def showBuf (b : InlineBuf) : String :=
   toString b.set ++ "," ++ toString b.apiLocation ++ "," ++ toString b.sizeInBytes
 
-def handle (args : List String) : String :=
-  match args with
-  | [ps, dflt, decls] =>
+def handle (op : String) (args : List String) : String :=
+  match op, args with
+  | "C06.assign", [ps, dflt, decls] =>
     match parseParams ps, dflt.toNat?,
           sequenceOpt ((if decls.isEmpty then [] else decls.splitOn ";").map parseDecl) with
     | some p, some d, some ds =>
@@ -42,6 +42,6 @@ def handle (args : List String) : String :=
       | .ok r => ";".intercalate (r.bindings.map showBinding) ++ " || " ++
                  ";".intercalate (r.inlineBufs.map showBuf)
     | _, _, _ => "bad-request"
-  | _ => "bad-request"
+  | _, _ => "unsupported-op"
 
 end RsslVerif.Driver.C06
